@@ -41,12 +41,14 @@ def handle (req : Json) : Except String Json := do
     let closed := (snapshot w.dir w.manifest).isSome
     let (w', r) := run (w, none) steps
     let prot := openWindowProtected w.manifest steps
+    -- schedule of the repaired protocol (hypothesis of `SL.C06.reader_open_succeeds`)
+    let legal := legalFrom w none steps
     match r with
     | none =>
-      return Json.mkObj [("protected", prot), ("closed0", closed), ("copied", Json.null)]
+      return Json.mkObj [("protected", prot), ("legal", legal), ("closed0", closed), ("copied", Json.null)]
     | some r =>
       return Json.mkObj [
-        ("protected", prot), ("closed0", closed),
+        ("protected", prot), ("legal", legal), ("closed0", closed),
         ("copied", Json.arr (r.copied.map entryJson).toArray),
         ("failed", r.failed), ("todo", r.todo.length),
         ("opened", Json.arr (r.opened.map (fun e => entryJson (e.1, e.2.1))).toArray),
